@@ -283,6 +283,20 @@ def main(run):
         mesh_cases.append(c)
         lines.append(mesh_request(c))
         meta.append(("mesh", c))
+    # the generated loop nest of phpy_get_thermal_properties vs the compiled kernel itself (eV units, no Python layer)
+    import phonopy._phonopy as phonoc
+
+    for c in mesh_cases:
+        kept = np.array([t for t in c["temps"] if not (t < 0)], dtype="double")
+        if c["nq"] * c["nb"] * len(kept) > 400 or sum(1 for m_ in meta if m_[0] == "cloop") >= (120 if thorough else 40):
+            continue
+        fe = np.array((np.abs(c["fr"]) if c["pretend"] else c["fr"]) * units.THzToEv, dtype="double", order="C")
+        cut = 0.0 if (c["cut"] is None or c["cut"] < 0) else c["cut"] * units.THzToEv
+        props = np.zeros((len(kept), 3), dtype="double", order="C")
+        phonoc.thermal_properties(props, kept, fe, np.array(c["w"], dtype="int64"), cut, int(c["classical"]))
+        lines.append("cloop %d %s %d %d %d %s %s %s" % (int(c["classical"]), fb(cut), len(kept), c["nq"], c["nb"], fbs(kept), fbs(fe), fbs(c["w"])))
+        meta.append(("cloop", (c, kept, fe, cut, props.copy())))
+
     # hand-made: a mode between 0 and the cutoff (zero-point energy of an ignored mode)
     c = dict(nq=2, nb=3, fr=np.array([[0.5, 1.0, 5.0], [-0.3, 2.0, 7.0]]), w=[1, 2], cut=0.7, pretend=False, classical=False, bi=None,
              temps=[0.0, 0.1, 0.3, 1.0, 10.0, 300.0, 1e5], style="zpe-below-cutoff")
@@ -328,7 +342,7 @@ def main(run):
             lines.append("proj %d %d %s %d %d %s %s %s %d %s" % (
                 int(kw["classical"]), int(hascut), fb(kw["cutoff_frequency"] if hascut else 0.0), c["nq"], nb, fbs(c["w"]), fbs(fr_used), fbs(e2),
                 len(temps), fbs(temps)))
-            meta.append(("proj", (tpo._projected_thermal_properties, dict(cell=name, mesh=msh, kw=kw))))
+            meta.append(("proj", (tpo._projected_thermal_properties, dict(cell=name, mesh=msh, kw=kw, totals={k_: np.array(v_) for k_, v_ in d.items()}))))
         api_cases.append(c)
         run.case(("api", name, msh, proj, repr(kw)), nontrivial=True)
         run.count("api " + name)
@@ -390,6 +404,22 @@ def main(run):
                         run.violation("ThermalProperties.run(lang='C') vs mode_" + nm, "c-ne-py-mode", "%s: C %r, Py %r" % (nm, a, b), dict(x=x, T=T, f=f, classical=cl))
             run.count("oracle-mode", section="oracle")
             continue
+        if kind == "cloop":
+            c, kept, fe, cut, props = info
+            model = np.array(vals).reshape(len(kept), 3)
+            incl = fe[fe > cut]
+            fmin = float(incl.min()) if incl.size else 1.0
+            nint = float(np.sum(np.array(c["w"])[:, None] * (fe > cut)))
+            for i, t in enumerate(kept):
+                ex = cond(fmin / (kB * t)) if t > 0 else 0.0
+                floors = (max(kB * t, float(np.abs(fe).max())) * max(nint, 1.0), kB * max(nint, 1.0), kB * max(nint, 1.0))
+                for cidx, nm in enumerate(("free energy", "entropy", "heat capacity")):
+                    ncmp += 1
+                    if not same(float(props[i, cidx]), float(model[i, cidx]), floors[cidx], ex):
+                        run.broke("correspondence", "compiled loop nest vs generated Lean loop, %s at T=%r: kernel %r, model %r" % (nm, t, props[i, cidx], model[i, cidx]),
+                                  dict(style=c["style"], nq=c["nq"], nb=c["nb"], cutoff_eV=cut, classical=c["classical"], weights=c["w"], frequencies_eV=fe.tolist(), temperatures=kept.tolist()))
+            run.count("generated-loop", section="correspondence")
+            continue
         if kind == "keeptemps":
             from phonopy.phonon.thermal_properties import ThermalProperties
 
@@ -420,7 +450,15 @@ def main(run):
                         okC[k_] &= same(pcv[i, j], arr[i, j, 3 + k_], kJ)
             if not any(okS) or not any(okC):
                 run.broke("correspondence", "projected entropy / heat capacity match neither modelled form", pinfo)
-            # oracle: components add up to the unprojected totals (rows of |e|^2 sum to 1)
+            # oracle: components add up to the unprojected totals (columns of |e|^2 sum to 1)
+            tot = pinfo.get("totals")
+            if tot is not None:
+                for nm, comp, ref, fl in (("free energy", pfe, tot["free_energy"], sc), ("entropy", ps, tot["entropy"], kJ * nbp), ("heat capacity", pcv, tot["heat_capacity"], kJ * nbp)):
+                    ssum = comp.sum(axis=1)
+                    okm = np.isfinite(ssum) & np.isfinite(ref)
+                    if np.any(np.abs(ssum[okm] - np.asarray(ref)[okm]) > 1e-9 * np.maximum(np.abs(np.asarray(ref)[okm]), fl)):
+                        run.violation("ThermalProperties.run (is_projection)", "projection-sum", "projected %s components do not add up to the total" % nm, pinfo)
+                run.count("oracle-projection-sum", section="oracle")
             run.count("projection", section="correspondence")
             continue
         # ---------------- mesh / api
@@ -430,8 +468,8 @@ def main(run):
             c = info
         kept = [t for t in c["temps"] if not (t < 0)]
         nt = len(kept)
-        z0, zc = vals[0], vals[1]
-        arr = np.array(vals[2:]).reshape(nt, 9)
+        z0, zc, m_nmodes, m_nint = vals[0], vals[1], vals[2], vals[3]
+        arr = np.array(vals[4:]).reshape(nt, 9)
         kw = dict(cutoff_frequency=c["cut"], pretend_real=c["pretend"], band_indices=c["bi"], classical=c["classical"])
         bi = list(np.hstack(c["bi"]).astype(int)) if c["bi"] is not None else list(range(c["nb"]))
         fsel = c["fr"][:, bi]
@@ -451,6 +489,22 @@ def main(run):
             tpC, tC, fC, sC, cvC = run_tp(mesh, c["temps"], "C", **kw)
             tpP, tP, fP, sP, cvP = run_tp(mesh, c["temps"], "Py", **kw)
             zpe_impl = tpC.zero_point_energy
+            ncmp += 2
+            if float(tpC.number_of_modes) != m_nmodes or float(tpC.number_of_integrated_modes) != m_nint:
+                run.broke("correspondence", "number_of_modes / number_of_integrated_modes: implementation %r / %r, model %r / %r" % (
+                    tpC.number_of_modes, tpC.number_of_integrated_modes, m_nmodes, m_nint), info_s)
+            # ---- oracle: the options mean what the documentation says (independent of the model)
+            if c["bi"] is not None or c["pretend"]:
+                eq_mesh = FakeMesh(np.abs(fsel) if c["pretend"] else fsel, c["w"])
+                _, _, fE, sE, cvE = run_tp(eq_mesh, c["temps"], "Py", cutoff_frequency=c["cut"], classical=c["classical"])
+                for nm, a, b, fl in (("F", fP, fE, scaleF), ("S", sP, sE, floorS), ("Cv", cvP, cvE, floorS)):
+                    if not all(same(float(x), float(y), fl, 1e-12) for x, y in zip(a, b)):
+                        run.violation("ThermalProperties(band_indices, pretend_real)", "option-semantics",
+                                      "%s with band_indices=%r, pretend_real=%r differs from the run on the selected |nu| columns" % (nm, c["bi"], c["pretend"]), info_s)
+                run.count("oracle-options", section="oracle")
+            if float(tpC.number_of_integrated_modes) != nint or float(tpC.number_of_modes) != fe_ev.shape[1] * wsum:
+                run.violation("ThermalProperties.number_of_integrated_modes", "mode-count", "num_modes %r, num_integrated_modes %r, expected %r, %r" % (
+                    tpC.number_of_modes, tpC.number_of_integrated_modes, fe_ev.shape[1] * wsum, nint), info_s)
             run.case(("mesh", c["style"], c["nq"], c["nb"], c["cut"], c["pretend"], c["classical"], repr(c["bi"]), c["fr"].tobytes(), tuple(c["temps"])), nontrivial=nontriv)
             run.count("mesh " + c["style"])
             run.count("cutoff " + ("None" if c["cut"] is None else "<0" if c["cut"] < 0 else "0" if c["cut"] == 0 else ">0"))
